@@ -370,19 +370,35 @@ func rulesC10(c *Ctx) {
 		}
 	}
 
-	// ---- (d) panic inventory (info)
+	// ---- (d) explicit panics on the block-execution cone: an armed inventory (round 4). Every panic() in module code
+	// reachable from the ABCI entry points is a condition under which the node stops; each is a reviewed row of
+	// tables/c10_panics.tsv keyed by the function and the innermost condition it is raised under (not by its message);
+	// a panic that is not listed is a violation.
 	nP := 0
+	seenP := map[string]bool{}
 	for _, f := range cone {
 		for _, b := range f.Blocks {
 			for _, in := range b.Instrs {
-				if _, ok := in.(*ssa.Panic); ok {
-					nP++
+				if _, ok := in.(*ssa.Panic); !ok {
+					continue
 				}
+				nP++
+				key := fname(f) + " when " + innermostCond(in)
+				if seenP[key] {
+					continue
+				}
+				seenP[key] = true
+				if reason, ok := c.Tabled("c10_panics", key); ok {
+					c.TabledOK("C10.panics", key, c.P.InstrPos(in), reason)
+					continue
+				}
+				c.Fail("C10.panics", key, c.P.InstrPos(in), "an explicit panic on the block-execution cone that is not in the reviewed inventory: if block content or transaction-reachable state can make its condition true, every node stops while executing the block; reached via "+g.Chain(parent, f))
 			}
 		}
 	}
-	c.Info("C10.inventory", "explicit-panics-on-cone", "", itoa(nP)+" explicit panic sites on the execution cone (inventory only; not a pass/fail rule)")
 	c.Extra["panic_sites_on_cone"] = nP
+	c.Floor("C10.panics", nP, 40, "explicit panic sites on the block-execution cone")
+	c10VRFProofWriters(c)
 	rulesC10Round2(c, c.P.BuildIndex())
 }
 
